@@ -38,7 +38,27 @@ def data_order(ctx, prog):
     if F is not None:
         du = DefUse(F)
         G, call = _closure_calling(prog, F, SC)
-        if G is None:
+        direct = q.calls_in(F, SC)
+        if G is None and direct:
+            # written as a `match` on the old value instead of `map_or(true, |old| ..)`
+            n += 1
+            call = direct[0]
+            a_old = expr(F, call.args[1], du)
+            a_new = expr(F, call.args[2], du)
+            ctx.site(R, F, "should_cutoff(%s, %s)" % (show(a_old), show(a_new)))
+            is_take = lambda x: x[0] == "call" and x[1].endswith("RefCell::take") and mentions(
+                x, lambda y: y[0] == "field" and y[2][-1] == "value_opt")
+            old_ok = mentions(a_old, is_take) and not mentions(a_old, lambda x: x == ("arg", 2))
+            new_ok = mentions(a_new, lambda x: x == ("arg", 2)) and not mentions(a_new, is_take)
+            take_call = [t for t in F.calls() if q.callee_is(t, "RefCell::take")]
+            stores = [t for t in F.calls() if q.callee_is(t, "RefCell::replace")]
+            order = bool(take_call and stores and F.cfg().dominates(take_call[0].bb, stores[0].bb))
+            if old_ok and new_ok and order:
+                ctx.ok(R, "maybe_change_value")
+            else:
+                ctx.fail(R, "maybe_change_value", "the cutoff is not consulted with (previous value, new value): "
+                         "should_cutoff(%s, %s)" % (show(a_old)[:80], show(a_new)[:80]), fn=F, span=call.span)
+        elif G is None:
             ctx.missing(R, "should_cutoff call inside maybe_change_value")
         else:
             n += 1
@@ -128,6 +148,15 @@ def data_gate(ctx, prog):
                         re_ = expr(G, s.dst, DefUse(G))
                         if re_[0] == "un" and re_[1] == "Not" and re_[2][0] == "call" and re_[2][1].endswith(SC):
                             good = True
+            if e[0] == "phi":
+                # the same decision written as `match old { None => true, Some(o) => !cutoff(o, new) }`
+                alts = set()
+                for x in e[1:]:
+                    for y in (x if x and isinstance(x[0], tuple) else (x,)):
+                        alts.add("true" if y == ("const", 1) else
+                                 "notcut" if (y[0] == "un" and y[1] == "Not" and y[2][0] == "call" and y[2][1].endswith(SC))
+                                 else show(y)[:40])
+                good = alts == {"true", "notcut"}
             if good:
                 ctx.ok(R, "did_change")
             else:
